@@ -45,6 +45,8 @@ struct Rec {
 struct Script {
     qname: String,
     recs: Vec<Rec>,
+    /// an EDNS record at the end: payload size, extended rcode, version, DO
+    edns: Option<(u16, u8, u8, bool)>,
 }
 
 const POOL: &[&str] = &[
@@ -98,6 +100,10 @@ fn expected_items(s: &Script) -> Value {
             Rd::Raw(_) => (65280, vec![]),
         };
         items.push(json!([r.sec, [labels_of(&r.owner), t, 1, 0, 60, names, []]]));
+    }
+    if let Some((udp, ext, ver, dok)) = s.edns {
+        let flags: u16 = if dok { 0x8000 } else { 0 };
+        items.push(json!([4, [[], 41, udp, (u16::from(ext) << 8) | u16::from(ver), flags, [], []]]));
     }
     Value::Array(items)
 }
@@ -157,6 +163,16 @@ fn build_old(s: &Script) -> Result<Vec<u8>, String> {
     for r in s.recs.iter().filter(|r| r.sec == 3) {
         push!(xb, r);
     }
+    if let Some((udp, ext, ver, dok)) = s.edns {
+        xb.opt(|o| {
+            o.set_udp_payload_size(udp);
+            o.set_rcode(domain::base::iana::OptRcode::masked_from_int(u16::from(ext) << 4));
+            o.set_version(ver);
+            o.set_dnssec_ok(dok);
+            Ok(())
+        })
+        .map_err(|e| e.to_string())?;
+    }
     Ok(xb.finish().into_target())
 }
 
@@ -209,6 +225,22 @@ fn build_new(s: &Script, bufsize: usize) -> Result<Vec<u8>, String> {
             _ => b.push_additional(&rec).map_err(|e| e.to_string())?,
         }
     }
+    if let Some((udp, ext, ver, dok)) = s.edns {
+        use domain::new::edns::{EdnsFlags, EdnsRecord};
+        let e = EdnsRecord {
+            max_udp_payload: U16::new(udp),
+            ext_rcode: ext,
+            version: ver,
+            flags: EdnsFlags::default().set_dnssec_ok(dok),
+            data: domain::new::base::wire::SizePrefixed::new(nrd::Opt::EMPTY),
+        };
+        // both public routes: push_edns and push(MessageItem::Edns)
+        if udp % 2 == 0 {
+            b.push_edns(&e).map_err(|e| e.to_string())?;
+        } else {
+            b.push(&domain::new::base::MessageItem::<(), (), _>::Edns(e)).map_err(|e| e.to_string())?;
+        }
+    }
     let msg = b.finish();
     let mut out = vec![];
     out.extend_from_slice(domain::new::base::wire::AsBytes::as_bytes(&msg.header));
@@ -257,7 +289,7 @@ fn gen_long_script(rng: &mut Rng) -> Script {
         };
         recs.push(Rec { sec, owner, rd });
     }
-    Script { qname: tree_name(rng), recs }
+    Script { qname: tree_name(rng), recs, edns: None }
 }
 
 /// More parent/child pairs than the new compressor has entries (32): a
@@ -302,7 +334,7 @@ fn gen_evict_script(rng: &mut Rng) -> Script {
         let i = rng.below(npar);
         push_pair(rng, &mut recs, sec, i);
     }
-    Script { qname: format!("{}.{}", c, parent(rng.below(npar))), recs }
+    Script { qname: format!("{}.{}", c, parent(rng.below(npar))), recs, edns: None }
 }
 
 /// Names that share a first label and a non-adjacent suffix: for labels a,
@@ -336,7 +368,7 @@ fn gen_triple_script(rng: &mut Rng) -> Script {
             _ => recs.push(Rec { sec: 1, owner: n.clone(), rd: Rd::Cname(n) }),
         }
     }
-    Script { qname, recs }
+    Script { qname, recs, edns: None }
 }
 
 /// The guard of D_new_compressor_partial_match_children, as a property of
@@ -374,6 +406,40 @@ fn prone_to_partial_match(s: &Script) -> bool {
         }
     }
     false
+}
+
+/// The first occurrence of a name is placed so that its suffix zone-x.test.
+/// starts at message offset `x` (the sweep 16360..16400 crosses the last
+/// offset a pointer can express, 16383), through the reversed-name path
+/// (owner) or the forward-name path (RDATA); later names of both kinds end
+/// in that suffix.
+fn gen_sweep_script(x: usize, forward: bool) -> Script {
+    // header 12 + question q. (3 + 4); a filler is C0 0C + 10 + k octets
+    let mut recs = vec![];
+    let mut at = 19usize;
+    for _ in 0..4 {
+        recs.push(Rec { sec: 1, owner: "q.".into(), rd: Rd::Raw(3900) });
+        at += 12 + 3900;
+    }
+    // the suffix starts 5 octets into the name (04 leaf), the name itself
+    // at the record start (owner) or 12 octets into the record (RDATA)
+    let name_at = x - 5;
+    let rec_at = if forward { name_at - 12 } else { name_at };
+    let k = rec_at - at - 12;
+    recs.push(Rec { sec: 1, owner: "q.".into(), rd: Rd::Raw(k) });
+    if forward {
+        recs.push(Rec { sec: 1, owner: "q.".into(), rd: Rd::Ns("leaf.zone-x.test.".into()) });
+    } else {
+        recs.push(Rec { sec: 1, owner: "leaf.zone-x.test.".into(), rd: Rd::A });
+    }
+    recs.push(Rec { sec: 1, owner: "www.zone-x.test.".into(), rd: Rd::A });
+    recs.push(Rec { sec: 1, owner: "q.".into(), rd: Rd::Cname("mail.zone-x.test.".into()) });
+    recs.push(Rec { sec: 2, owner: "zone-x.test.".into(), rd: Rd::Ns("test.".into()) });
+    Script { qname: "q.".into(), recs, edns: None }
+}
+
+fn find_sub(hay: &[u8], needle: &[u8]) -> Option<usize> {
+    hay.windows(needle.len()).position(|w| w == needle)
 }
 
 /// One step of a fill script: the section, whether the push succeeded and
@@ -520,7 +586,7 @@ fn gen_trunc_segment(rng: &mut Rng, qname: Option<String>) -> Script {
         };
         recs.push(Rec { sec, owner, rd });
     }
-    Script { qname: qname.unwrap_or_else(|| pick(rng)), recs }
+    Script { qname: qname.unwrap_or_else(|| pick(rng)), recs, edns: None }
 }
 
 fn op_json(op: &str, sec: u8, ok: bool, c: [u16; 4]) -> Value {
@@ -661,7 +727,7 @@ fn gen_fill_script(rng: &mut Rng) -> Script {
         };
         recs.push(Rec { sec, owner, rd });
     }
-    Script { qname: pick(rng), recs }
+    Script { qname: pick(rng), recs, edns: None }
 }
 
 /// the items of a script that were accepted (accepted[0] is the question)
@@ -733,7 +799,7 @@ fn gen_script(rng: &mut Rng, big: bool) -> Script {
             recs.push(Rec { sec, owner, rd });
         }
     }
-    Script { qname: pick(rng), recs }
+    Script { qname: pick(rng), recs, edns: None }
 }
 
 fn main() {
@@ -799,6 +865,12 @@ fn main() {
         } else {
             gen_script(&mut rng, big)
         };
+        let mut s = s;
+        if rng.chance(1, 2) {
+            // extended rcode and version differ more often than not
+            s.edns = Some((*rng.pick(&[0u16, 512, 1232, 4097, 65535]), *rng.pick(&[0u8, 1, 1, 23, 255]),
+                           *rng.pick(&[0u8, 0, 1, 2, 254]), rng.chance(1, 2)));
+        }
         let want = expected_items(&s);
         let bufsize = if big { 40000 } else { 12000 };
         let sides: Vec<(&str, Result<Vec<u8>, String>)> = vec![
@@ -815,7 +887,7 @@ fn main() {
                                         "old_reads": j["old_reads"], "new_reads": j["new_reads"]}));
                     } else {
                         tw.event(json!({"ev": "bigbuilt", "side": side, "len": m.len(), "built": "ok",
-                                        "prone": prone_to_partial_match(&s),
+                                        "prone": prone_to_partial_match(&s), "suffix_at": 0,
                                         "old_reads": j["old_reads"], "new_reads": j["new_reads"],
                                         "script": format!("{:?}", s).chars().take(600).collect::<String>()}));
                     }
@@ -823,6 +895,33 @@ fn main() {
                 Err(e) => tw.event(json!({"ev": "bigbuilt", "side": side, "len": 0, "built": e, "prone": false,
                                           "old_reads": false, "new_reads": false,
                                           "script": format!("{:?}", s).chars().take(600).collect::<String>()})),
+            }
+        }
+    }
+    // the 16383/16384 boundary, offset by offset, both compressor paths
+    let (lo, hi) = if n >= 400 { (16360usize, 16400usize) } else { (16376, 16392) };
+    for x in lo..=hi {
+        for forward in [false, true] {
+            let s = gen_sweep_script(x, forward);
+            let want = expected_items(&s);
+            for side in ["old", "new"] {
+                let built = if side == "old" {
+                    catch_unwind(AssertUnwindSafe(|| build_old(&s))).unwrap_or(Err("panic".into()))
+                } else {
+                    catch_unwind(AssertUnwindSafe(|| build_new(&s, 40000))).unwrap_or(Err("panic".into()))
+                };
+                match built {
+                    Ok(m) => {
+                        let j = judge(&m, &want);
+                        let at = find_sub(&m, b"\x06zone-x\x04test\x00").unwrap_or(0);
+                        tw.event(json!({"ev": "bigbuilt", "side": side, "len": m.len(), "built": "ok", "prone": false,
+                                        "suffix_at": at, "forward": forward,
+                                        "old_reads": j["old_reads"], "new_reads": j["new_reads"], "script": "sweep"}));
+                    }
+                    Err(e) => tw.event(json!({"ev": "bigbuilt", "side": side, "len": 0, "built": e, "prone": false,
+                                              "suffix_at": x, "forward": forward,
+                                              "old_reads": false, "new_reads": false, "script": "sweep"})),
+                }
             }
         }
     }
